@@ -39,9 +39,9 @@ func (*prop) Assumptions() []string {
 }
 func (*prop) MinDistinct(tier string) int64 {
 	if tier == "thorough" {
-		return 1000
+		return 500
 	}
-	return 40
+	return 15
 }
 
 type params struct {
